@@ -8,6 +8,8 @@ Direct oracle on the real reader (base document vs variant built by construction
   (a) foreign insertions = the hypotheses of C18_foreign_inert (any local name, any position)  -> dumps must be equal
   (b) namespaced attributes on any element, also inside prototypes             -> dumps must be equal
   (c) extension records in prototypes (unique and standard local names)        -> U:<prefix>:<name>/<type> at its place, rest equal
+  (w) writer side: real-writer programs with extension records (also with standard local names) inserted at every
+      prototype position -> what is read back about the standard content equals the report without them
   (d) the three formerly known shapes (same local name before the standard sibling, first child of a leaf / inside its
       text, descendant capture), generated on random documents: since the repairs of the crate the dump must not change;
       a recurrence is reported under the old class name.
@@ -374,6 +376,106 @@ def direct_oracle(rep, rng, tier):
         rep.sample(dict(kind="variant", cls=it[0], note=it[4], xml=it[2].decode("utf-8", "replace")[:300]))
 
 
+# ----------------------------------------------------------------------------- writer side (metamorphic)
+
+def _hx(t):
+    return "=" + t.encode().hex()
+
+
+def _f32(v):
+    return struct.pack(">f", v).hex()
+
+
+def _f64(v):
+    return struct.pack(">d", v).hex()
+
+
+def _value(rng, typ):
+    k = typ.split("/")[0]
+    if k == "D":
+        return "d" + _f64(rng.choice([0.0, 1.5, -2.0, 100.25]))
+    if k == "F":
+        return "f" + _f32(rng.choice([0.0, 0.5, 1.0]))
+    lo, hi = int(typ.split("/")[1]), int(typ.split("/")[2])
+    return ("s" if k == "S" else "i") + str(rng.choice([lo, hi, (lo + hi) // 2]))
+
+
+WRITER_BASES = [
+    # (name, records) - what the writer derives from the prototype: default intensity / colour limits, bounds
+    ("xyz", ["x~D/-/-", "y~D/-/-", "z~D/-/-"]),
+    ("xyz+intensity-float", ["x~D/-/-", "y~D/-/-", "z~D/-/-", "in~F/%s/%s" % (_f32(0.0), _f32(1.0))]),
+    ("xyz+intensity-int", ["x~D/-/-", "y~D/-/-", "z~D/-/-", "in~I/0/65535"]),
+    ("xyz+rgb", ["x~D/-/-", "y~D/-/-", "z~D/-/-", "r~I/0/255", "g~I/0/255", "b~I/0/255"]),
+    ("xyz+rgb+intensity+row", ["x~F/-/-", "y~F/-/-", "z~F/-/-", "r~I/0/65535", "g~I/0/65535", "b~I/0/65535",
+                               "in~S/0/1000/%s/%s" % (_f64(0.001), _f64(0.0)), "row~I/0/99", "col~I/0/99", "ts~D/-/-"]),
+    ("spherical+intensity", ["sr~D/-/-", "sa~D/-/-", "se~D/-/-", "in~I/0/255"]),
+]
+EXT_LOCALS = ["intensity", "colorRed", "colorGreen", "colorBlue", "cartesianX", "rowIndex", "timeStamp", "sphericalRange", "quality"]
+EXT_TYPES = ["I/0/7", "I/-5/1000000", "F/%s/%s" % (_f32(-1.0), _f32(7.0)), "D/-/-", "S/1/9/%s/%s" % (_f64(0.5), _f64(3.0))]
+NS, NSURL = "ext", "urn:c18:writer-ext"
+
+
+def _program(records, points):
+    prog = ["G", _hx("file"), "X", _hx(NS), _hx(NSURL), "PC", _hx("pc"), str(len(records))] + records
+    for pt in points:
+        prog += ["PP", str(len(pt))] + pt
+    return "METAW " + " ".join(prog + ["PE", "FIN"])
+
+
+def writer_leg(rep, rng, tier):
+    """real-writer programs whose prototype gets extension records (ext:<name>, also with the local names of standard
+    records and a different type) inserted at every position: what the reader reports about the standard content of the
+    written file must be the report for the program without them"""
+    impl = core.ensure_harness("debug")
+    ext_tok = lambda local, typ: "u.%s.%s~%s" % (NS.encode().hex(), local.encode().hex(), typ)
+    cases = []          # (base name, note, base line index, line, inserted tokens)
+    lines = []
+    for bname, recs in WRITER_BASES:
+        npts = 3
+        vals = [[_value(rng, r.split("~")[1]) for r in recs] for _ in range(npts)]
+        bi = len(lines); lines.append(_program(recs, vals))
+        variants = []
+        positions = range(len(recs) + 1)
+        for i in positions:
+            locs = EXT_LOCALS
+            for local in locs:
+                variants.append(([(i, local, rng.choice(EXT_TYPES))]))
+        # all three colour names (and intensity) at once, in front of / behind / without the standard ones
+        for i in (0, len(recs)):
+            variants.append([(i, "colorBlue", "I/0/7"), (i, "colorGreen", "I/0/7"), (i, "colorRed", "I/0/7"), (i, "intensity", rng.choice(EXT_TYPES))])
+        for ins in variants:
+            r2 = list(recs); v2 = [list(v) for v in vals]; toks = []
+            for (i, local, typ) in ins:
+                t = ext_tok(local, typ); toks.append(t)
+                r2.insert(i, t)
+                for v in v2:
+                    v.insert(i, _value(rng, typ))
+            cases.append((bname, "extension records %s at index %d" % (",".join("ext:%s~%s" % (l, t) for _, l, t in ins), ins[0][0]), bi, len(lines), toks))
+            lines.append(_program(r2, v2))
+    outs = core.run_cases(impl, lines)
+    n_changed = 0
+    def report(o):
+        p = o.split(" | ")
+        return (p[0], p[2]) if len(p) >= 3 else (o, "")
+    for bname, note, bi, li, toks in cases:
+        rep.count()
+        bres, bdump = report(outs[bi]); vres, vdump = report(outs[li])
+        # the variant's report with the inserted extension records taken out again
+        vt = vdump.split(" ")
+        for t in toks:
+            if t in vt:
+                vt.remove(t)
+        vt = [("proto:%d" % (int(x[6:]) - len(toks)) if x.startswith("proto:") else x) for x in vt]
+        if bres != vres or " ".join(vt) != bdump or not bdump.startswith("ROOT"):
+            n_changed += 1
+            a, b = diff_tokens(bdump, " ".join(vt))
+            rep.violation("c18-writer-extension-record", "writer program %s, %s: the standard content read back differs from the program without them: without [%s] with [%s] (results %s / %s)"
+                          % (bname, note, a[:200], b[:200], bres, vres), dict(kind="c18-writer", base=lines[bi], variant=lines[li], tokens=toks, note=note))
+        rep.distinct(("writer", bname, note.split(" at ")[0][:40]))
+    rep.cov["writer_side"] = dict(base_programs=[b for b, _ in WRITER_BASES], variants=len(cases), changed=n_changed,
+                                  extension_local_names=EXT_LOCALS, positions="every index of the prototype")
+
+
 def diff_tokens(a, b):
     ta, tb = a.split(" "), b.split(" ")
     k = 0
@@ -405,6 +507,19 @@ def run(rep, tier, rng, replay=None):
             rep.violation(cls if cls in KNOWN else VIOL[cls], "%s: base %s | variant %s" % (replay.get("note"), diff_tokens(want, v)[0][:250], diff_tokens(want, v)[1][:250]),
                           dict(replay))
         return
+    if replay and replay.get("kind") == "c18-writer":
+        impl = core.ensure_harness("debug")
+        b, v = core.run_cases(impl, [replay["base"], replay["variant"]], shards=1)
+        rep.count()
+        bd = b.split(" | ")[2] if len(b.split(" | ")) >= 3 else b
+        vt = (v.split(" | ")[2] if len(v.split(" | ")) >= 3 else v).split(" ")
+        for t in replay["tokens"]:
+            if t in vt:
+                vt.remove(t)
+        vt = [("proto:%d" % (int(x[6:]) - len(replay["tokens"])) if x.startswith("proto:") else x) for x in vt]
+        if " ".join(vt) != bd or b.split(" | ")[0] != v.split(" | ")[0]:
+            rep.violation("c18-writer-extension-record", "%s: %s | %s" % (replay.get("note"), *diff_tokens(bd, " ".join(vt))), dict(replay))
+        return
     if replay and replay.get("kind") == "xml":
         (r, m, tc), = xe.compare([bytes.fromhex(replay["xml"])])
         rep.count()
@@ -434,3 +549,4 @@ def run(rep, tier, rng, replay=None):
                       % (len(st["disagreements"]), muts, r[:300], m[:300]), dict(kind="xml", xml=xml.hex()), no_input=True)
     # ---- direct oracle
     direct_oracle(rep, rng, tier)
+    writer_leg(rep, rng, tier)
